@@ -271,6 +271,37 @@ def main(chk):
         chk.decide(all(gg.must_pass(gg.entry, r.id, [ln]) for r in others) and all(compact(r.ast.value) == 'dt' for r in others), 'next-step',
                    'landing-applied-to-returned-value', node=gt, file=SOL, func='_get_timestep', detail_bad='the tf clamp is skipped on some path',
                    detail_ok='applied last')
+    # the stability criteria are consulted for every step of an adaptive run: whether compute_time_step is called may depend on the
+    # configuration only, never on state that changes while solve() runs (a remembered "no constraint last time")
+    ct = M.find_func(cls, '_compute_timestep')
+    cts = [c for c in M.calls(ct) if (M.call_name(c) or '').endswith('integrator.compute_time_step')]
+    if not cts:
+        chk.violated('next-step', 'criteria-consulted-every-step', node=ct, file=SOL, func='_compute_timestep', detail='_compute_timestep never asks the integrator for the stable step')
+    else:
+        state = {}
+        for mname in reach:
+            if mname in ('__init__',):
+                continue
+            for a in ast.walk(meths[mname]):
+                tgs = a.targets if isinstance(a, ast.Assign) else ([a.target] if isinstance(a, (ast.AugAssign, ast.AnnAssign)) else [])
+                for tg in tgs:
+                    if isinstance(tg, ast.Attribute) and U(tg.value) == 'self':
+                        state.setdefault(tg.attr, mname)
+        reads = set()
+        gi = M.enclosing(cts[0], (ast.If, ast.While, ast.IfExp))
+        while gi is not None:
+            reads |= set(x.attr for x in ast.walk(gi.test) if isinstance(x, ast.Attribute) and U(x.value) == 'self')
+            gi = M.enclosing(gi, (ast.If, ast.While, ast.IfExp))
+        early = [r for r in ast.walk(ct) if isinstance(r, ast.Return) and r.lineno < cts[0].lineno]
+        for r in early:
+            gi = M.enclosing(r, (ast.If,))
+            if gi is not None:
+                reads |= set(x.attr for x in ast.walk(gi.test) if isinstance(x, ast.Attribute) and U(x.value) == 'self')
+        sticky = sorted(a for a in reads if a in state)
+        chk.decide(not sticky, 'next-step', 'criteria-consulted-every-step', node=cts[0], file=SOL, func='_compute_timestep',
+                   detail_bad='whether integrator.compute_time_step is called depends on self.%s, which is assigned in %s while solve() runs: once it flips, later steps no longer '
+                              'honour the stability criteria' % (sticky[0] if sticky else '', state.get(sticky[0]) if sticky else ''),
+                   detail_ok='guarded by configuration only (%s)' % sorted(reads))
     dmp = M.find_func(cls, '_damp_timestep')
     chk.decide([compact(r.value) for r in ast.walk(dmp) if isinstance(r, ast.Return)] == ['dt*self._damping_factor'], 'next-step', 'damping', node=dmp,
                file=SOL, func='_damp_timestep', detail_bad='damped step is not dt*_damping_factor', detail_ok='dt*self._damping_factor')
